@@ -26,8 +26,8 @@ TEXT = {
          "8-bit layouts, precision <= 9, from_utf8 stubbed; the early-trim defect found this way was fixed (known_findings.json)"),
  "C11": ("Both back ends verify under the checking semantics (overflow checks, shift checks, debug assertions of the dev-profile expansion); this check owns the panic-class obligations of all Verus units and of the listed Kani harnesses: when every such site is discharged under the function's precondition, no check can fire and the unchecked build computes the same value",
          "only functions under contract are covered; evidence.public_fn_coverage lists the public functions under Verus contract, exercised by Kani only, and not covered"),
- "C12": ("Verus verifies exp, pow, powi, ln, log2 as written, generic over all supported (S, D), against trait-level contracts (no panic-class obligation left; conventions as postconditions); Kani proves sin/cos/tan/sqrt/log2/ln/exp total on I9F23 (whole domain) and sin/cos/exp on wider types for the stated ranges",
-         "trait-level contracts and three conversion/comparison axioms assumed (listed); sqrt generic proof pending; Kani results are per instantiated type"),
+ "C12": ("Verus verifies sqrt, exp, pow, powi, ln, log2 as written, generic over all supported (S, D), against trait-level contracts (no panic-class obligation left; conventions as postconditions); Kani proves sin/cos/tan/sqrt/log2/ln/exp total on I9F23 (whole domain) and sin/cos/exp on wider types for the stated ranges",
+         "trait-level contracts and three conversion/comparison axioms assumed (listed); Kani results are per instantiated type"),
  "C17": ("Kani asserts the hook iteration counter <= 4*width+64 after every call (whole domain on I9F23, stated ranges / whole domain for sin on I32F32 in thorough); the generic Verus unit has only `for` loops over ranges bounded by frac_nbits() <= 128",
          "counter hook lines in transcendental.rs (guarded); per-type results; the sin range-reduction defect was fixed"),
  "C10": ("Kani runs the real parity-scale-codec derive for one alias per family over all bit patterns: encode == to_le_bytes == encoding of the bits, max_encoded_len, decode round trip, short input fails, byte views inverse",
